@@ -65,6 +65,14 @@ type badStampedDeep struct {
 	S badStamped
 }
 
+// a named map type (registered: written as a typed map) whose keys are interface slots
+type badKeyMap map[interface{}]int32
+
+// flushBuf is a destination with a Flush method, like a bufio.Writer in front of a connection
+type flushBuf struct{ bytes.Buffer }
+
+func (*flushBuf) Flush() error { return nil }
+
 type namedHandle uintptr
 type namedSig chan int
 type namedCb func()
@@ -82,6 +90,7 @@ var unsupportedKinds = []string{"named uintptr", "named chan", "named func", "na
 	"struct{chan}", "*struct{chan}", "struct{func}", "struct{[]complex128}", "struct{map[string]func}", "struct{*struct{chan}}", "[]chan", "struct{[]chan}", "map[string]chan", "[]interface{}{chan}",
 	// a Go int beyond the 32 bits of the wire type chosen for its kind: not representable as that type. The call
 	// fails, or (should the library choose a wider form) carries the number - see carriedOrFails
+	"anonymous struct{chan}", "*anonymous struct{func}", "[]interface{}{anonymous struct{complex}}",
 	"struct{Évent chan}", "struct{Ωmega func; Ärger complex128}", "struct{time.Time; chan}", "*struct{struct{time.Time; chan}}",
 	"int beyond 32 bits", "negative int beyond 32 bits", "[]int{.., beyond 32 bits, ..}", "map[string]int{beyond 32 bits}", "struct{int beyond 32 bits}"}
 
@@ -162,6 +171,18 @@ func unsupportedValue(kind string) interface{} {
 		return map[string]chan int{"c": make(chan int)}
 	case "[]interface{}{chan}":
 		return []interface{}{int32(1), make(chan int), int32(3)}
+	case "anonymous struct{chan}":
+		return struct {
+			A int32
+			C chan int
+		}{1, make(chan int)}
+	case "*anonymous struct{func}":
+		return &struct {
+			S string
+			F func()
+		}{"s", func() {}}
+	case "[]interface{}{anonymous struct{complex}}":
+		return []interface{}{int32(1), struct{ X complex128 }{complex(1, 2)}}
 	case "struct{Évent chan}":
 		return &badNonASCIIField{A: 1, Évent: make(chan int), Z: "z"}
 	case "struct{Ωmega func; Ärger complex128}":
@@ -323,6 +344,26 @@ func mustFail(v interface{}, nm map[string]string, wide bool) string {
 	if e1 == nil || e2 == nil {
 		return fmt.Sprintf("ToBytes of the same value twice on one Serializer: errors %v / %v, bytes %s / %s", e1, e2, hexClip(b1, 30), hexClip(b2, 30))
 	}
+	// the continuous entry point on a destination that can be flushed (a bufio.Writer in front of a connection)
+	var e5 error
+	if pv, st := guard(func() {
+		s := hessian.NewSerializer(nil, nm)
+		fb := &flushBuf{}
+		if e5 = s.WriteTo(fb, c13Good); e5 != nil {
+			e5 = nil
+			return
+		}
+		if e5 = s.Write(v); e5 == nil {
+			e5 = fmt.Errorf("no error")
+		} else {
+			e5 = nil
+		}
+	}); pv != nil {
+		return fmt.Sprintf("Serializer.Write to a flushable destination panicked: %v [%s]", pv, st)
+	}
+	if e5 != nil {
+		return "Serializer.Write of the value, as the second message of a stream to a destination with a Flush method, returned nil"
+	}
 	// and the next, representable, value is encoded as if the refused one had never been seen: an encode that
 	// "succeeds" with left-overs of the refused value in front is bytes that decode to something else
 	if e3 != nil || !bytes.Equal(b3, c13GoodBytes) {
@@ -335,6 +376,8 @@ func mustFail(v interface{}, nm map[string]string, wide bool) string {
 }
 
 // c13Good is a small representable value encoded after every refusal; its encoding is context-free.
+var cfgAnchor int
+
 var c13Good = []interface{}{"after", int32(7), true}
 var c13GoodBytes = []byte{0x58, 0x93, 0x05, 'a', 'f', 't', 'e', 'r', 0x97, 'T'}
 
@@ -355,6 +398,18 @@ func TestC13(t *testing.T) {
 			directFail(t, "C13", map[string]interface{}{"kind": "chan in the longer of two types sharing a class name"}, "C13 two types under one class name: %s", msg)
 		}
 		r.Eval()
+	}
+	// a typed map (a named map type with a registered name) with the unsupported value in key position
+	for _, key := range []interface{}{make(chan int), complex(1, 2), uintptr(7), unsafe.Pointer(&cfgAnchor), struct{ C chan int }{make(chan int)}} {
+		v := badKeyMap{"ok": 1, key: 2}
+		nm := map[string]string{"badKeyMap": "com.example.BadKeyMap"}
+		if msg := mustFail(v, nm, false); msg != "" {
+			directFail(t, "C13", map[string]interface{}{"kind": fmt.Sprintf("%T as a key of a typed map", key)}, "C13 %T as a key of a typed map: %s", key, msg)
+		}
+		if msg := mustFail([]interface{}{"x", &v}, nm, false); msg != "" {
+			directFail(t, "C13", map[string]interface{}{"kind": fmt.Sprintf("%T as a key of a typed map in a list", key)}, "C13 %T as a key of a typed map inside a list: %s", key, msg)
+		}
+		r.EvalN(2)
 	}
 	cfg := zoo.DefaultCfg()
 	cfg.MaxBig = 12
